@@ -504,3 +504,36 @@ Proof.
   - intros b Hb Ha. cbn in Hb. repeat (destruct Hb as [<-|Hb]; [try reflexivity; vm_compute in Ha; discriminate Ha|]). contradiction.
   - intros k disp kd Hk Hne. cbn in Hk. repeat (destruct Hk as [Hk|Hk]; [injection Hk as _ <-; destruct kd; try congruence; vm_compute; reflexivity|]). contradiction.
 Qed.
+
+(* ------------------------------------------------------------------------------------ *)
+(* summary lemmas used by props/C17.v                                                    *)
+(* ------------------------------------------------------------------------------------ *)
+
+Lemma lang_refused_iff : forall l, lang_supports_opt l = false <-> l = LPy.
+Proof. intros []; rewrite lang_supports_opt_table; split; intro H; try reflexivity; try discriminate; congruence. Qed.
+
+Definition refusal (a : args) (root : list ftree) : Prop :=
+  (enable_optimize a = true /\ any_marker root = true) \/
+  (enable_optimize a = true /\ exists l, lang_ a = Some l /\ lang_supports_opt l = false) \/
+  (enable_optimize a = false /\ truthy_list (filter_messages a) = true).
+
+Lemma refusals_nonzero : forall a root lint io,
+  check a = false -> refusal a root ->
+  exit_code (decide a (parse_of root) lint (render_model io)) <> 0 /\
+  rendered_of (decide a (parse_of root) lint (render_model io)) = None.
+Proof.
+  intros a root lint io Hc [[HO Hm]|[[HO [l [Hl Hs]]]|[HO HF]]].
+  - apply decide_traditional_marker; assumption.
+  - destruct (parse_of root true) eqn:HP.
+    + rewrite (decide_lang_refused a (parse_of root) lint io l HO Hc HP Hl Hs). cbn. split; [lia|reflexivity].
+    + apply decide_parse_error. unfold trad_flag. rewrite HO, Hc. cbn. rewrite HP. discriminate.
+  - apply decide_F_without_O; assumption.
+Qed.
+
+Lemma traditional_cites_first_marker : forall root, any_bad root = false ->
+  parse_files true root = ext_err (first_marker_list 0 root).
+Proof. intros root H. exact (parse_files_no_bad root true H). Qed.
+
+Lemma filter_membership : forall t f defs e,
+  In e (funcs (emit t f defs)) <-> In e (funcs (emit t None defs)) /\ selected f e = true.
+Proof. intros t f defs e. rewrite filter_exact. apply filter_In. Qed.
